@@ -3,6 +3,7 @@ package gedcom
 import (
 	"reflect"
 	"sync"
+	"sync/atomic"
 )
 
 type Nodes []Node
@@ -11,7 +12,27 @@ type Nodes []Node
 // fairly inexpensive it happens a lot and its common for the same paths to be
 // looked up many time. Especially when doing larger task like comparing GEDCOM
 // files.
-var nodeCache = &sync.Map{} // map[Node]map[Tag]Nodes{}
+var nodeCache atomic.Value // *sync.Map: map[Node]map[Tag]Nodes{}
+
+func init() {
+	resetNodeCache()
+}
+
+// currentNodeCache returns the cache that NodesWithTag is using right now. It
+// is replaced (never emptied) by resetNodeCache, so it can also be used to
+// know if any nodes have been added or removed since it was last looked at.
+//
+// The cache may be replaced while other goroutines are reading nodes (the diff
+// page sorts detached copies of nodes in several goroutines), which is why it
+// is kept in an atomic value.
+func currentNodeCache() *sync.Map {
+	return nodeCache.Load().(*sync.Map)
+}
+
+// resetNodeCache must be called whenever a node is added or removed.
+func resetNodeCache() {
+	nodeCache.Store(&sync.Map{})
+}
 
 func NewNodes(ns interface{}) (nodes Nodes) {
 	v := reflect.ValueOf(ns)
@@ -27,6 +48,8 @@ func NewNodes(ns interface{}) (nodes Nodes) {
 //
 // If the node is nil the result will also be nil.
 func NodesWithTag(node Node, tag Tag) (result Nodes) {
+	nodeCache := currentNodeCache()
+
 	if v1, ok1 := nodeCache.Load(node); ok1 {
 		if v2, ok2 := v1.(*sync.Map).Load(tag); ok2 {
 			return v2.(Nodes)
